@@ -125,6 +125,11 @@ def ops : List (String × Op) := [
       match a, b with
       | some x, some y => pure (clauses [("distance", okDistance x y ty r)])
       | _, _ => pure (clauses [("constructor-must-refuse", r.isNone)])),
+  ("eqhash", do
+      let a ← pIn; let b ← pIn; pArrow; let r ← pAns (do let e ← pBool'; let h ← pBool'; pure (e, h))
+      match a, b with
+      | some x, some y => pure (clauses [("eq-hash", okEq x y r)])
+      | _, _ => pure (clauses [("constructor-must-refuse", r.isNone)])),
   ("reverse", unaryOp okReverse "reverse"),
   ("revstrand", unaryOp okReverseStrand "reverse-strand"),
   ("resetstrand", do
